@@ -26,7 +26,7 @@ PLAN = {
     "thorough": {"shards": 16, "shard_timeout": 3600, "case_timeout": 40, "grammars": 5000, "agree": 30000, "max_case_timeouts": 80},
 }
 THRESHOLDS = {
-    "quick": {"mapped:ge": 200, "mapped:sge": 200, "mapped:dsge": 200, "mapped:stack": 30, "refined_positions": 3000, "dependent_positions": 100, "agree_values": 2000, "repr:stack": 20, "repr:dsge": 50, "repr:ge": 50, "repr:sge": 50, "repr:tree": 100, "set:mh_kinds_seen": 8},
+    "quick": {"mapped:ge": 200, "mapped:sge": 200, "mapped:dsge": 200, "mapped:stack": 30, "refined_positions": 3000, "dependent_positions": 100, "agree_values": 2000, "repr:stack": 20, "repr:dsge": 50, "repr:ge": 50, "repr:sge": 50, "repr:tree": 100, "set:mh_kinds_seen": 8, "redeclared_grammars": 40},
     "thorough": {"refined_positions": 50000, "dependent_positions": 2000, "agree_values": 50000, "set:mh_kinds_seen": 9},
 }
 
@@ -87,11 +87,29 @@ def run_case(case, rec):
     if ctx is None:
         return
     try:
+        drive(ctx, rec)
+        if case.get("retype"):
+            ctx2 = stream.retyped_ctx(ctx)
+            if ctx2 is not None:
+                rec.count("redeclared_grammars")
+                drive(ctx2, rec)
+    finally:
+        ctx.built.dispose()
+
+
+def drive(ctx, rec):
+    if True:
 
         def check(v, where):
             n = count_refined(ctx.model, v, ctx.built.start, rec)
             rec.count(f"repr:{ctx.repr}")
             bad = ctx.model.refinement_violations(v, ctx.built.start)
+            # second opinion from the parameters the grammar was WRITTEN with (descriptor), independent of the live
+            # metahandler objects: catches refinements that were swapped, aliased or went stale after declaration
+            rec.count("descriptor_oracle_checks")
+            for path, mh, reason in refmodel.desc_refinement_violations(ctx.built, v)[:3]:
+                if not any(b[0] == path for b in bad):
+                    rec.violation(f"refinement-as-declared:{ctx.repr}:{mh}", {"where": where, "path": path, "reason": reason, "program": core.short(ctx.model.canon(v), 400), "grammar": ctx.case["desc"]["name"], "note": "the live annotation accepts this value; the declared refinement does not"})
             for path, mh, reason in bad[:3]:
                 rec.violation(f"refinement:{ctx.repr}:{mh}", {"where": where, "path": path, "reason": reason, "program": core.short(ctx.model.canon(v), 400), "grammar": ctx.case["desc"]["name"]})
             if n and not bad:
@@ -110,8 +128,6 @@ def run_case(case, rec):
                 check(p, ev.op)
 
         stream.run_session(ctx, on_event, on_search_program=lambda p: check(p, "fitness-argument"))
-    finally:
-        ctx.built.dispose()
 
 
 def count_refined(model, v, t, rec, siblings=None, depth=0):
